@@ -271,7 +271,10 @@ pub fn random_script(rng: &mut Rng, max_len: usize) -> Vec<Step> {
             st.wait = true;
         }
     }
-    if rng.chance(20) {
+    // (VERIF_NO_SID: regression runs of kept changes that predate the repair of C18-K1 and can
+    // only be applied to the tree as it was then; the draw is made in any case)
+    let string_ids = rng.chance(20);
+    if string_ids && std::env::var("VERIF_NO_SID").is_err() {
         // a client that uses string request ids
         for st in s.steps.iter_mut() {
             if st.op.request_id().is_some() {
